@@ -12,6 +12,8 @@ package batch
 //@ ghost addOffered int
 //@ ghost cutCalls int
 //@ ghost lastCutOK bool
+// ghost: number of forced cuts (a batch smaller than the maximum may only be cut on the batch timeout)
+//@ ghost forcedCuts int
 //@ ghost lastAnchorVersion uint64
 //@ ghost lastReaddVersion uint64
 //@ ghost lastHandler protocol.OperationHandler
@@ -20,13 +22,15 @@ package batch
 //@ spec writerOK(r *Writer) bool { r != nil && r.batchCutter != nil && r.protocol != nil && r.context != nil && r.logger != nil }
 //@ spec qopsNonNil(ops []*operation.QueuedOperation) bool { forall q int :: 0 <= q && q < len(ops) ==> ops[q] != nil }
 //
+//@ ghost lastAddFailed bool
 //@ iface batchCutter.Add
-//@   modifies addCalls, lastReaddVersion
-//@   ensures addCalls == old(addCalls) + 1 && lastReaddVersion == protocolVersion
+//@   results n, err
+//@   modifies addCalls, lastReaddVersion, lastAddFailed
+//@   ensures addCalls == old(addCalls) + 1 && lastReaddVersion == protocolVersion && lastAddFailed == (err != nil)
 //@ iface batchCutter.Cut
 //@   results res, err
-//@   modifies cutCalls, lastCutOK
-//@   ensures cutCalls == old(cutCalls) + 1 && lastCutOK == (err == nil)
+//@   modifies cutCalls, lastCutOK, forcedCuts
+//@   ensures cutCalls == old(cutCalls) + 1 && lastCutOK == (err == nil) && forcedCuts == old(forcedCuts) + cond(force, 1, 0)
 //@   ensures err == nil ==> qopsNonNil(res.Operations)
 //@ iface Context.Anchor
 //@   ensures result != nil
@@ -51,7 +55,9 @@ package batch
 //@   ensures addCalls <= old(addCalls) + 1 && addCalls >= old(addCalls)
 //@   ensures addCalls == old(addCalls) + 1 ==> lastReaddVersion == protocolVersion
 //@   ensures addCalls == old(addCalls) ==> lastReaddVersion == old(lastReaddVersion)
-//@   modifies addCalls, lastReaddVersion
+//   the caller learns whether the operation was accepted: success exactly when the queue took it
+//@   ensures (result == nil) == (addCalls == old(addCalls) + 1 && !lastAddFailed)
+//@   modifies addCalls, lastReaddVersion, lastAddFailed
 //
 // anchor written before anything is re-queued; every deferred operation is re-added, with the batch's version;
 // a failure before the anchor is written re-queues nothing
@@ -66,7 +72,7 @@ package batch
 //   C20 glue: the batch is prepared by the handler of the version it was queued under, anchored and re-queued under it
 //@   ensures result == nil ==> lastAnchorVersion == protocolVersion && lastHandler == handlerOf(verOf(r.protocol, protocolVersion))
 //@   ensures addCalls > old(addCalls) ==> lastReaddVersion == protocolVersion
-//@   modifies anchorsWritten, addCalls, addOffered, lastAdditional, lastAnchorVersion, lastReaddVersion, lastHandler
+//@   modifies anchorsWritten, addCalls, addOffered, lastAdditional, lastAnchorVersion, lastReaddVersion, lastHandler, lastAddFailed
 //
 // nack on any processing error, ack only after the anchor was written
 //@ func (*Writer).cutAndProcess
@@ -79,5 +85,19 @@ package batch
 //@   ensures acks + nacks <= old(acks) + old(nacks) + 1
 //   a batch that was cut is always settled: acknowledged after the anchor was written, or given back (nack) - never dropped
 //@   ensures err != nil && lastCutOK ==> nacks == old(nacks) + 1
-//@   ensures cutCalls == old(cutCalls) + 1
-//@   modifies anchorsWritten, addCalls, addOffered, lastAdditional, acks, nacks, cutCalls, lastCutOK, lastAnchorVersion, lastReaddVersion, lastHandler
+//@   ensures cutCalls == old(cutCalls) + 1 && forcedCuts == old(forcedCuts) + cond(forceCut, 1, 0)
+//@   modifies anchorsWritten, addCalls, addOffered, lastAdditional, acks, nacks, cutCalls, lastCutOK, forcedCuts, lastAnchorVersion, lastReaddVersion, lastHandler, lastAddFailed
+
+// a batch smaller than the maximum is cut only on the batch timeout: draining never forces a cut, and processAvailable
+// forces at most one, and only when its caller (the batch-timeout tick) asks for it
+//@ func (*Writer).drain
+//@   requires writerOK(r)
+//@   loop 1
+//@     invariant forcedCuts == old(forcedCuts)
+//@   ensures forcedCuts == old(forcedCuts)
+//@   modifies anchorsWritten, addCalls, addOffered, lastAdditional, acks, nacks, cutCalls, lastCutOK, forcedCuts, lastAnchorVersion, lastReaddVersion, lastHandler, lastAddFailed
+//@ func (*Writer).processAvailable
+//@   requires writerOK(r)
+//@   ensures !forceCut ==> forcedCuts == old(forcedCuts)
+//@   ensures forcedCuts <= old(forcedCuts) + 1
+//@   modifies anchorsWritten, addCalls, addOffered, lastAdditional, acks, nacks, cutCalls, lastCutOK, forcedCuts, lastAnchorVersion, lastReaddVersion, lastHandler, lastAddFailed
